@@ -52,14 +52,14 @@ func HarnessC16SwitchPredicate() {
 	global := zzvBounded("global", 0, 1<<40)
 	replace := verifrt.NondetBool("replace")
 	const name = "entry"
-	oldCid, newCid := zzvCid(6, 1), zzvCid(verifrt.NondetRange("newCid", 0, 1), 2)
+	oldCid, newCid := zzvCid(6, 0xA1), zzvCid(verifrt.NondetRange("newCid", 0, 1), 2)
 	oldTs := verifrt.NondetU64("oldTs")
 	newTs := verifrt.NondetU64("newTs")
 	verifrt.Assume(oldTs < 1<<14)
 	verifrt.Assume(newTs < 1<<14)
 
 	nd := format.EmptyDirNode()
-	nd.AddRawLink("other", &ipld.Link{Cid: zzvCid(1, 3), Size: 7})
+	nd.AddRawLink("other", &ipld.Link{Cid: zzvCid(1, 0xA3), Size: 7})
 	if replace {
 		nd.AddRawLink(name, &ipld.Link{Cid: oldCid, Size: oldTs})
 	}
@@ -195,9 +195,9 @@ func HarnessC16Convert() {
 		c.mode = 0o2750
 		c.mtime = time.Unix(1700000000, 5)
 	}
-	big := &zzvChild{c: zzvCid(6, 1), size: 5}
-	small := &zzvChild{c: zzvCid(0, 2), size: 5}
-	small2 := &zzvChild{c: zzvCid(0, 3), size: 6}
+	big := &zzvChild{c: zzvCid(6, 0xA1), size: 5}
+	small := &zzvChild{c: zzvCid(0, 0xA2), size: 5}
+	small2 := &zzvChild{c: zzvCid(0, 0xA3), size: 6}
 
 	var d Directory
 	var err error
@@ -361,7 +361,7 @@ func HarnessC16Histories() {
 		zzvHashTable[n] = tbl[i]
 	}
 	defer hamtHashHook()()
-	nodes := []*zzvChild{{c: zzvCid(0, 1), size: 5}, {c: zzvCid(6, 2), size: 300}}
+	nodes := []*zzvChild{{c: zzvCid(0, 0xA1), size: 5}, {c: zzvCid(6, 0xA2), size: 300}}
 	for _, n := range nodes {
 		ds.Add(ctx, n)
 	}
@@ -379,6 +379,7 @@ func HarnessC16Histories() {
 	for i := 0; i < k; i++ {
 		name := zzvPool[verifrt.NondetRange("name", 0, len(zzvPool)-1)]
 		op := verifrt.NondetRange("op", 0, 2)
+		wasHAMT := zzvIsHAMT(d)
 		if op < 2 {
 			err := d.AddChild(ctx, name, nodes[op])
 			verifrt.Assert("C16.hist-add-ok", err == nil)
@@ -399,8 +400,18 @@ func HarnessC16Histories() {
 			want = true
 		}
 		verifrt.Observe("sharded", zzvIsHAMT(d))
+		// Classification only (not part of the oracle): a directory that stays sharded although the rule says basic
+		// while its net size change since it became sharded is still >= 0 is the documented-in-code short cut of
+		// needsToSwitchToBasicDir ("size did not go below what it was"); it gets its own id so that any other way of
+		// staying sharded (threshold comparison, enumeration, max-links) is reported separately.
+		gated := false
+		if hd, ok := zzvInner(d).(*HAMTDirectory); ok && wasHAMT && hd.sizeChange >= 0 {
+			gated = true
+		}
 		if want {
 			verifrt.Assert("C16.sharded-when-rule-says-sharded", zzvIsHAMT(d))
+		} else if gated {
+			verifrt.Assert("C16.basic-when-rule-says-basic-size-change-gate", !zzvIsHAMT(d))
 		} else {
 			verifrt.Assert("C16.basic-when-rule-says-basic", !zzvIsHAMT(d))
 		}
@@ -423,5 +434,84 @@ func HarnessC16Histories() {
 	d3, err := NewDirectoryFromNode(ds, root)
 	verifrt.Assert("C16.hist-reload-ok", err == nil)
 	zzvCheckAgainstModel(ctx, "reloaded", d3, model, nodes)
+	verifrt.Reach("end")
+}
+
+// HarnessC16Downgrade: the HAMT -> basic decision at the boundary. A sharded directory {a,b -> 34-byte CID, c ->
+// 135-byte CID} is loaded from its root (net size change 0, so every shrinking edit is evaluated exactly), configured
+// with a symbolic max-links 0..4 and a per-directory threshold within +-1 of the size the directory has after the
+// edit; the edit removes c, replaces c by the small target, or removes a. Rule: it becomes basic iff the size after
+// the edit is not above the threshold (size rule off when estimation is disabled: then max-links must be set) and the
+// entry count does not exceed a set max-links.
+func HarnessC16Downgrade() {
+	ctx := context.Background()
+	ds := &zzvDag{}
+	tbl := zzvTables[verifrt.NondetRange("table", 0, 1)]
+	zzvHashTable = map[string][]byte{}
+	for i, n := range zzvPool {
+		zzvHashTable[n] = tbl[i]
+	}
+	defer hamtHashHook()()
+	nodes := []*zzvChild{{c: zzvCid(0, 0xA1), size: 5}, {c: zzvCid(6, 0xA2), size: 300}}
+	for _, n := range nodes {
+		ds.Add(ctx, n)
+	}
+	em := SizeEstimationMode(verifrt.NondetRange("em", 0, 2))
+	h, err := NewHAMTDirectory(ds, 0, WithMaxHAMTFanout(8))
+	verifrt.Assert("C16.down-new-ok", err == nil)
+	model := map[string]int{"a": 0, "b": 0, "c": 1}
+	for _, name := range zzvPool {
+		verifrt.Assert("C16.down-prep-ok", h.AddChild(ctx, name, nodes[model[name]]) == nil)
+	}
+	root, err := h.GetNode()
+	verifrt.Assert("C16.down-prep-node-ok", err == nil)
+	d, err := NewDirectoryFromNode(ds, root)
+	verifrt.Assert("C16.down-load-ok", err == nil)
+	op := verifrt.NondetRange("op", 0, 2)
+	switch op {
+	case 0:
+		delete(model, "c")
+	case 1:
+		model["c"] = 0
+	case 2:
+		delete(model, "a")
+	}
+	after := zzvRuleSize(em, model, nodes)
+	if em == SizeEstimationDisabled {
+		after = 100
+	}
+	threshold := zzvBounded("threshold", after-1, after+1)
+	maxLinks := zzvBounded("maxLinks", 0, 4)
+	d.SetMaxLinks(maxLinks)
+	d.SetMaxHAMTFanout(8)
+	d.SetSizeEstimationMode(em)
+	d.SetHAMTShardingSize(threshold)
+	switch op {
+	case 0:
+		err = d.RemoveChild(ctx, "c")
+	case 1:
+		err = d.AddChild(ctx, "c", nodes[0])
+	case 2:
+		err = d.RemoveChild(ctx, "a")
+	}
+	verifrt.Assert("C16.down-op-ok", err == nil)
+	verifrt.Observe("sharded", zzvIsHAMT(d))
+	linksOK := maxLinks == 0 || len(model) <= maxLinks
+	var sizeOK bool
+	if em == SizeEstimationDisabled {
+		sizeOK = maxLinks > 0
+	} else {
+		sizeOK = after <= threshold
+	}
+	if sizeOK && linksOK {
+		verifrt.Assert("C16.down-basic-when-rule-says-basic", !zzvIsHAMT(d))
+	} else {
+		verifrt.Assert("C16.down-sharded-when-rule-says-sharded", zzvIsHAMT(d))
+	}
+	zzvCheckAgainstModel(ctx, "downgrade", d, model, nodes)
+	if op != 1 { // the AddChild conversion path and its settings are HarnessC16Convert's subject
+		verifrt.Assert("C16.down-threshold-kept", d.GetHAMTShardingSize() == threshold)
+	}
+	verifrt.Assert("C16.down-max-links-kept", d.GetMaxLinks() == maxLinks)
 	verifrt.Reach("end")
 }
